@@ -73,8 +73,8 @@ m = {
    {'name': 'vec', 'path': 'harness/src/engine_vec.rs', 'serves_properties': ['C05','C06','C07','C08','C09','C10','C11','C12','C13','C14','C15','C17','C20'], 'kind_free_text': 'proptest state-machine style: generated VecCase histories interpreted against the real library and a plain-Vec model; taps at every adapter boundary; known-finding triggers excluded exactly'},
    {'name': 'obs', 'path': 'harness/src/engine_obs.rs', 'serves_properties': ['C01','C02','C03','C04','C16','C19'], 'kind_free_text': 'generated call histories on observables, both lock flavours, reference model, flag wakers'},
    {'name': 'async', 'path': 'harness/src/engine_async.rs', 'serves_properties': ['C01','C02','C03','C16','C20'], 'kind_free_text': 'async-lock flavour with guards held across calls, hand-rolled executor, lock model'},
-   {'name': 'thr', 'path': 'harness/src/engine_thr.rs', 'serves_properties': ['C01','C02','C03','C04'], 'kind_free_text': 'real threads: directed schedules at pause points (stateless DFS) and free-running rounds; history checkers'},
-   {'name': 'zst', 'path': 'harness/src/engine_zst.rs', 'serves_properties': ['C01','C02','C03'], 'kind_free_text': 'observables of a zero-sized value type: generated histories, notification-only model'},
+   {'name': 'thr', 'path': 'harness/src/engine_thr.rs', 'serves_properties': ['C01','C02','C03','C04','C19'], 'kind_free_text': 'real threads: directed schedules at pause points (stateless DFS) and free-running rounds; history checkers'},
+   {'name': 'zst', 'path': 'harness/src/engine_zst.rs', 'serves_properties': ['C01','C02','C03','C04'], 'kind_free_text': 'observables of a zero-sized value type (generated histories, notification-only model, optional wakers sharing one data pointer) and the value-shapes check of the conditional setters (byte strings, coarse equality, pointer-sized integers)'},
    {'name': 'zvec', 'path': 'harness/src/engine_zvec.rs', 'serves_properties': ['C05','C08','C09','C10','C11'], 'kind_free_text': 'ObservableVector of zero-sized elements through raw subscribers and fixed adapters: length / applicability / end-of-stream model'},
    {'name': 'pure', 'path': 'harness/src/engine_pure.rs', 'serves_properties': ['C18'], 'kind_free_text': 'proptest + bounded-exhaustive enumeration of (vector, diff, mapping) triples against a plain-Vec reference'},
  ],
